@@ -19,7 +19,7 @@ from hypothesis import HealthCheck, Phase, given, seed as hseed, settings, strat
 
 from vlib import oracles
 from vlib.campaign import Campaign
-from vlib.engine_d import Run, inj_start_stage
+from vlib.engine_d import Run, inj_pause, inj_start_stage, inj_unpause
 from vlib.par import run_shards
 from vlib.sched import make_schedule, schedule_desc
 from vlib.spec import core_corpus, dag_spec, features, loop_spec
@@ -170,10 +170,54 @@ def shard(prop: str, tier: str, seed: int, n: int) -> dict[str, Any]:
     return c.export()
 
 
+PAUSE_SWEEP = ("chain", "diamond", "multitask", "terminal_sibling", "cof", "poll", "firstof", "before", "after", "loop2")
+
+
+def pause_case(c: Campaign, spec: dict[str, Any], sd: dict[str, Any], at: int, extra=()) -> None:
+    """Operator pause before delivery ``at``; once the engine is quiet the workflow must be final or waiting (paused counts);
+    then the operator resumes, and once the engine is quiet again the workflow must be final (or waiting for something else)."""
+    run = Run(spec, make_schedule(sd))
+    run.injections.setdefault(at, []).append(inj_pause())
+    run.drain()
+    desc = {**sd, "pause_at": at}
+    case = {"spec": spec, "schedule": desc}
+    paused = run.workflow().status.name == "PAUSED"
+    for clause, detail in quiescence_clauses(run):
+        c.violation(f"{clause}|paused", case, detail + " (quiet after an operator pause)", sig={"features": features(spec)})
+    if paused:
+        inj_unpause()(run)
+        run.drain()
+        for clause, detail in quiescence_clauses(run):
+            c.violation(f"{clause}|after-resume", case, detail + " (quiet after pause + resume)", sig={"features": features(spec)})
+        if run.workflow().status.name == "PAUSED":
+            c.violation("still-paused-after-resume", case, "the workflow is still PAUSED although the operator resumed it and the engine is quiet")
+    c.case(("c05p", spec, desc), paused, ["pause-sweep", "paused" if paused else "pause-not-applied"] + list(extra),
+           sample={"spec": spec["name"], "pause_at": at, "workflow": run.workflow().status.name} if paused and at % 7 == 3 else None)
+
+
+def shard_pause_sweep(prop: str, tier: str, seed: int, name: str) -> dict[str, Any]:
+    c = Campaign(prop, tier, seed, LEVEL)
+    spec = core_corpus()[name]
+    fifo = {"style": "fifo", "d": [], "R": 2}
+    steps = Run(spec, make_schedule(fifo)).drain().steps
+    sds = [fifo] + ([{"style": "uniform", "d": [2, 2], "R": 2}, {"style": "hold", "d": [], "R": 2, "hold": "CompleteWorkflow", "hold_for": 4}] if tier == "thorough" else [])
+    for at in range(steps + 2):
+        for sd in sds:
+            pause_case(c, spec, sd, at)
+    return c.export()
+
+
+def _dispatch(fn, a):  # noqa: ANN001
+    return fn(*a)
+
+
 def run(c: Campaign, jobs: int) -> None:
     n = 6000 if c.tier == "quick" else 120000
     shards = max(1, jobs)
-    run_shards(c, shard, [(c.prop, c.tier, c.seed * 1000 + k, max(1, n // shards)) for k in range(shards)], jobs)
+    args = [(shard, (c.prop, c.tier, c.seed * 1000 + k, max(1, n // shards))) for k in range(shards)]
+    args += [(shard_pause_sweep, (c.prop, c.tier, c.seed, name)) for name in PAUSE_SWEEP]
+    run_shards(c, _dispatch, args, jobs)
+    c.exhaustive_parts.append(f"operator pause before every delivery position of the FIFO run of {len(PAUSE_SWEEP)} corpus workflows, then resume")
     c.rule = ("case = (spec, schedule, injected duplicate StartStage messages). Specs: core corpus, generated DAGs with halting / "
               "continue-on-failure branches, first-of/quorum joins, jump loops, stages with before/after children, mutex, deferred choice, "
               "suspend gate. Non-trivial = spec has a halting failure beside unfinished siblings, an early-firing join, a synthetic child, "
@@ -184,13 +228,20 @@ def run(c: Campaign, jobs: int) -> None:
         "single worker thread; SQLite backend only",
     ]
     for cls in ("kind:racy-fail", "kind:early-join", "feat:before-child", "feat:after-child", "feat:onfail-child", "feat:failing-child",
-                "feat:predeclared-child", "feat:parallel-children", "feat:continue-on-failure-child", "feat:stopped-failure", "feat:disabled", "feat:jump", "feat:suspend", "inj:dup-startstage"):
+                "feat:predeclared-child", "feat:parallel-children", "feat:continue-on-failure-child", "feat:stopped-failure", "feat:disabled", "feat:jump", "feat:suspend", "inj:dup-startstage", "paused"):
         if c.classes.get(cls, 0) == 0:
             c.harness_error(f"generator starvation: class {cls} never produced")
 
 
 def replay(c: Campaign, rec: dict[str, Any]) -> int:
     case = rec["case"]
+    if "pause_at" in case["schedule"]:
+        regress(c, rec)
+        for b, v in c.buckets.items():
+            print(f"VIOLATION property={c.prop} replay=given\n  bucket: {b}\n  detail: {v['detail']}")
+        if not c.buckets:
+            print("replay: no violation")
+        return 1 if c.buckets else 0
     run_ = Run(case["spec"], make_schedule(case["schedule"]))
     for at, ref in case["schedule"].get("dup_startstage", []):
         run_.injections.setdefault(at, []).append(inj_start_stage(ref))
@@ -206,6 +257,10 @@ def replay(c: Campaign, rec: dict[str, Any]) -> int:
 
 def regress(c: Campaign, rec: dict[str, Any]) -> None:
     case = rec["case"]
+    if "pause_at" in case["schedule"]:
+        sd = {k: v for k, v in case["schedule"].items() if k != "pause_at"}
+        pause_case(c, case["spec"], sd, case["schedule"]["pause_at"], ["regression"])
+        return
     run_ = Run(case["spec"], make_schedule(case["schedule"]))
     for at, ref in case["schedule"].get("dup_startstage", []):
         run_.injections.setdefault(at, []).append(inj_start_stage(ref))
